@@ -50,7 +50,7 @@ def tables(draw, max_n=40):
     return {"n": n, "poly": poly, "noff": noff, "units": un, "rows": rows,
             "logprobs": draw(st.booleans()), "t_ref": draw(st.one_of(st.none(), gens.fl(50000.0, 59000.0).map(lambda x: gens.rounded(x, 9)))),
             "phase": gens.rounded(draw(gens.fl(-4 * math.pi, 4 * math.pi)), 9), "phase_unit": draw(st.sampled_from(og.ANG_UNITS)),
-            "index_seed": draw(st.integers(0, 10**6)),
+            "index_seed": draw(st.integers(0, 10**6)), "t_ref_scale": draw(st.sampled_from(["tcb", "tcb", "utc", "tt", "tdb"])),
             "times": [gens.rounded(draw(gens.fl(-300, 300)), 6) for _ in range(12)]}
 
 
@@ -72,6 +72,8 @@ def build(case):
     import thejoker as tj
 
     t_ref = None if case["t_ref"] is None else Time(case["t_ref"], format="mjd", scale="tcb")
+    if t_ref is not None and case.get("t_ref_scale", "tcb") != "tcb":
+        t_ref = getattr(t_ref, case["t_ref_scale"])   # the same instant on another time scale
     s = tj.JokerSamples(poly_trend=case["poly"], n_offsets=case["noff"], t_ref=t_ref)
     names = ["P", "e", "omega", "M0", "s", "K"] + ["v%d" % i for i in range(case["poly"])] + \
         ["dv0_%d" % (i + 1) for i in range(case["noff"])]
@@ -123,7 +125,9 @@ def body_factory(ctx):
         g = np.random.default_rng(case["index_seed"])
         k = int(g.integers(0, n))
         exprs = [("int", k, [k]), ("np.int64", np.int64(k), [k]), ("slice", slice(k // 2, n), list(range(k // 2, n))),
-                 ("mask", None, None), ("index_array", None, None)]
+                 ("mask", None, None), ("index_array", None, None),
+                 ("int -1", -1, [n - 1]), ("np.int64 -1", np.int64(-1), [n - 1]), ("int -n", -n, [0]),
+                 ("negative slice", slice(-2, None), list(range(n))[-2:])]
         mask = g.random(n) < 0.6
         if not mask.any():
             mask[k] = True
@@ -191,6 +195,21 @@ def body_factory(ctx):
         for nm in allnames:
             if back2[nm].unit != units0[nm] or not np.array_equal(back2[nm].value, s[nm].value):
                 raise Violation("pack/unpack with the table's own units is not the identity for %s" % nm)
+        # units / names given in an order of the caller's choice: the returned units must describe the returned columns
+        perm = list(g.permutation(len(allnames)))
+        names_p = [allnames[i] for i in perm[:max(1, len(perm) - int(g.integers(0, 2)))]]
+        user_units = {nm: units0[nm] for nm in reversed(allnames) if g.random() < 0.6}
+        with ctx.sut("pack(units=<user dict>, names=<user order>)"):
+            packed4, pun4 = s.pack(units=dict(user_units), names=list(names_p))
+            back4 = tj.JokerSamples.unpack(packed4, pun4, t_ref=s.t_ref, poly_trend=case["poly"], n_offsets=case["noff"])
+        if list(back4.par_names) != names_p:
+            raise Violation("pack/unpack with a caller-chosen column order: columns come back under other names",
+                            asked=names_p, got=list(back4.par_names), user_units=[str(k_) for k_ in user_units])
+        for nm in names_p:
+            if not back4[nm].unit.is_equivalent(units0[nm]) or not np.allclose(
+                    back4[nm].to_value(units0[nm]), s[nm].value, rtol=1e-12, atol=1e-300):
+                raise Violation("pack/unpack with a caller-chosen column order changed the values of %s" % nm,
+                                asked=names_p, user_units=[str(k_) for k_ in user_units])
         with ctx.sut("pack()"):
             p3, u3 = s.pack()
         if list(u3.keys()) != ["P", "e", "omega", "M0", "s"] or p3.shape != (n, 5):
@@ -205,6 +224,8 @@ def body_factory(ctx):
         if case["t_ref"] is None:
             tref_val = 55555.25
             tref_arg = Time(tref_val, format="mjd", scale="tcb")
+            if case.get("t_ref_scale", "tcb") != "tcb":
+                tref_arg = getattr(tref_arg, case["t_ref_scale"])
         with ctx.sut("get_time_with_phase / get_t0"):
             tph = s.get_time_with_phase(phase_q, t_ref=tref_arg)
             t0 = s.get_t0(t_ref=tref_arg)
@@ -246,8 +267,21 @@ def body_factory(ctx):
         before = {nm: (s[nm].value.copy(), s[nm].unit) for nm in allnames}
         tref_c = 55000.0
         curves = [rv_curve(s, i, case["times"], tref_c) for i in range(n)]
+        # the orbit objects built by the table itself, before and after (same instance: nothing may be stale)
+        tt_orb = None
+        if s.t_ref is not None:
+            tt_orb = Time(np.asarray(case["times"][:4]) + tref_c, format="mjd", scale="tcb")
+            with ctx.sut("get_orbit before wrap_K"):
+                orb_before = [s.get_orbit(i).radial_velocity(tt_orb).to_value(u.km / u.s) for i in range(min(n, 4))]
         with ctx.sut("wrap_K()"):
             w = s.wrap_K()
+        if tt_orb is not None:
+            with ctx.sut("get_orbit after wrap_K"):
+                orb_after = [w.get_orbit(i).radial_velocity(tt_orb).to_value(u.km / u.s) for i in range(min(n, 4))]
+            for i in range(min(n, 4)):
+                if np.max(np.abs(orb_after[i] - orb_before[i])) > 1e-8 * (1 + abs(K0[i])):
+                    raise Violation("get_orbit(%d) gives another RV curve after wrap_K on the same table" % i,
+                                    row=case["rows"][i], before=orb_before[i], after=orb_after[i])
         if meta_of(w) != m0 or list(w.par_names) != allnames:
             raise Violation("wrap_K lost metadata / columns")
         Kw = w["K"].to_value(u.km / u.s)
